@@ -128,7 +128,9 @@ func (sc *SearchCache) CleanupExpired() int {
 // generateCacheKey creates a unique cache key for the query and options
 func (sc *SearchCache) generateCacheKey(query string, options SearchOptions) string {
 	// Normalize query for consistent caching
-	normalizedQuery := strings.ToLower(strings.TrimSpace(query))
+	// Only letter case is folded: surrounding blanks are part of what the typo
+	// fallback matches, so blank-padded variants may not share an entry.
+	normalizedQuery := strings.ToLower(query)
 
 	// Create a deterministic key that includes all relevant options
 	keyData := struct {
